@@ -54,6 +54,14 @@ type fileRec struct {
 	N int    `json:"n"`
 }
 
+// bodyRec: one posted report: its week, the X in the posted body and the X in
+// the local report of that week (2^-20 units; -1: none).
+type bodyRec struct {
+	Wk int `json:"wk"`
+	Bx int `json:"bx"`
+	Lx int `json:"lx"`
+}
+
 type reqRec struct {
 	Wk  int `json:"wk"`
 	Run int `json:"run"`
@@ -320,39 +328,80 @@ func project(dir string, testProg string) (files []fileRec, local, ready, upload
 type server struct {
 	srv *httptest.Server
 	mu  sync.Mutex
-	log map[string][]string // scenario prefix -> dates posted, in order
+	log map[string][]postRec // scenario prefix -> what was posted, in order
 }
 
+// postRec: the date in the request path and the X carried by the posted body, in units of 2^-20 (-1: no X could be read).
+type postRec struct {
+	date string
+	bx   int
+}
+
+func x20(x float64) int { return int(math.Round(x * (1 << 20))) }
+
 func newServer() *server {
-	s := &server{log: map[string][]string{}}
+	s := &server{log: map[string][]postRec{}}
 	s.srv = httptest.NewServer(http.HandlerFunc(func(w http.ResponseWriter, r *http.Request) {
-		io.Copy(io.Discard, r.Body)
+		body, _ := io.ReadAll(r.Body)
+		var rep struct{ X *float64 }
+		bx := -1
+		if json.Unmarshal(body, &rep) == nil && rep.X != nil {
+			bx = x20(*rep.X)
+		}
 		parts := strings.SplitN(strings.TrimPrefix(r.URL.Path, "/"), "/", 2)
 		s.mu.Lock()
 		if len(parts) == 2 {
-			s.log[parts[0]] = append(s.log[parts[0]], parts[1])
+			s.log[parts[0]] = append(s.log[parts[0]], postRec{parts[1], bx})
 		} else {
-			s.log["?"] = append(s.log["?"], r.URL.Path)
+			s.log["?"] = append(s.log["?"], postRec{r.URL.Path, bx})
 		}
 		s.mu.Unlock()
 	}))
 	return s
 }
 
-func (s *server) posted(prefix string) []string {
+func (s *server) posted(prefix string) []postRec {
 	s.mu.Lock()
 	defer s.mu.Unlock()
-	return append([]string(nil), s.log[prefix]...)
+	return append([]postRec(nil), s.log[prefix]...)
 }
 
 // ------------------------------------------------------------- X and config
 
 // xReader replaces crypto/rand.Reader: the goroutine that runs an uploader
 // registers the X its reports must carry.
+// xSeq is the sequence of X values one uploader run draws, in units of 2^-20:
+// the first is the X of the scenario; every later draw is a different value -
+// on the same side of the sample rate (so that the decision the specification
+// predicts does not depend on which report draws first), or, when cross is set
+// (one finished week only, so the draw order is fixed), well above the rate.
+type xSeq struct {
+	x0, rate20 int
+	cross      bool
+	k          int
+}
+
+func (q *xSeq) next() float64 {
+	q.k++
+	v := q.x0
+	if q.k > 1 {
+		d := q.k - 1
+		switch {
+		case q.cross:
+			v = 1023*1024 + d
+		case q.rate20 > 0 && q.x0 <= q.rate20 && q.x0-d >= 0:
+			v = q.x0 - d
+		default:
+			v = q.x0 + d
+		}
+	}
+	return float64(v) / (1 << 20)
+}
+
 type xReader struct {
 	orig io.Reader
 	mu   sync.Mutex
-	x    map[uint64]float64
+	x    map[uint64]*xSeq
 }
 
 func goid() uint64 {
@@ -368,18 +417,20 @@ func goid() uint64 {
 
 func (r *xReader) Read(p []byte) (int, error) {
 	r.mu.Lock()
-	x, ok := r.x[goid()]
-	r.mu.Unlock()
+	q, ok := r.x[goid()]
 	if !ok || len(p) != 8 {
+		r.mu.Unlock()
 		return r.orig.Read(p)
 	}
+	x := q.next()
+	r.mu.Unlock()
 	binary.LittleEndian.PutUint64(p, math.Float64bits(0.5+x/2))
 	return 8, nil
 }
 
-func (r *xReader) set(x float64) {
+func (r *xReader) set(q *xSeq) {
 	r.mu.Lock()
-	r.x[goid()] = x
+	r.x[goid()] = q
 	r.mu.Unlock()
 }
 
@@ -396,7 +447,7 @@ type env struct {
 func newEnv(t *testing.T) *env {
 	e := &env{t: t, srv: newServer(), proxies: map[int][]string{}, root: t.TempDir()}
 	t.Cleanup(e.srv.srv.Close)
-	e.xr = &xReader{orig: rand.Reader, x: map[uint64]float64{}}
+	e.xr = &xReader{orig: rand.Reader, x: map[uint64]*xSeq{}}
 	orig := rand.Reader
 	rand.Reader = e.xr
 	t.Cleanup(func() { rand.Reader = orig })
@@ -691,16 +742,29 @@ func (e *env) runScenario(sc *scenario) {
 	nrun := 0
 	intent := noIntent // in the model's (unshifted) day numbers
 	var reqs []reqRec
+	bodies := []bodyRec{}
 	seenReq := 0
 	observe := func() state {
 		files, local, ready, uploaded, _ := project(dir, e.self)
 		posted := e.srv.posted(prefix)
 		for ; seenReq < len(posted); seenReq++ {
 			wk := -1
-			if d, ok := vm.DayOf(posted[seenReq]); ok {
+			if d, ok := vm.DayOf(posted[seenReq].date); ok {
 				wk = d
 			}
 			reqs = append(reqs, reqRec{Wk: wk, Run: nrun})
+			// the X of the posted body next to the X of the local report of that week
+			b := bodyRec{Wk: wk - sc.Shift, Bx: posted[seenReq].bx, Lx: -1}
+			if data, err := os.ReadFile(filepath.Join(dir, "local", "local."+posted[seenReq].date+".json")); err == nil {
+				var rep struct{ X *float64 }
+				if json.Unmarshal(data, &rep) == nil && rep.X != nil {
+					b.Lx = x20(*rep.X)
+				}
+			}
+			if wk < 0 {
+				b.Wk = -1
+			}
+			bodies = append(bodies, b)
 		}
 		return state{ModeFile: vm.Classify(dir), Day: day, Tod: tod, Files: files, Local: local, Ready: ready, Uploaded: uploaded,
 			Requests: append([]reqRec{}, reqs...)}
@@ -738,6 +802,7 @@ func (e *env) runScenario(sc *scenario) {
 			continue
 		}
 		pre := observe()
+		nbodies := len(bodies)
 		intentS := intent
 		procS := lp.observe(lpProg)
 		_, _, _, _, extraS := project(dir, e.self)
@@ -750,7 +815,16 @@ func (e *env) runScenario(sc *scenario) {
 			cfg := upload.RunConfig{TelemetryDir: dir, UploadURL: e.srv.srv.URL + "/" + prefix, StartTime: vm.At(day, tod),
 				Env: e.proxyEnv(a.N2)}
 			done := make(chan string, 1)
-			go func(x float64) {
+			// the X sequence of this run; with exactly one finished week the later draws cross the sample rate
+			weeks := map[int]bool{}
+			for _, f := range pre.Files {
+				if f.E < day || (f.E == day && tod > 0) {
+					weeks[f.E] = true
+				}
+			}
+			seq := &xSeq{x0: a.N1 * 1024, rate20: a.N2 * 1024}
+			seq.cross = len(weeks) == 1 && seq.rate20 > 0 && seq.x0 <= seq.rate20 && seq.rate20 < 1023*1024
+			go func(x *xSeq) {
 				e.xr.set(x)
 				defer func() {
 					if r := recover(); r != nil {
@@ -762,7 +836,7 @@ func (e *env) runScenario(sc *scenario) {
 					return
 				}
 				done <- ""
-			}(float64(a.N1) / 1024)
+			}(seq)
 			select {
 			case errText = <-done:
 			case <-time.After(60 * time.Second):
@@ -838,7 +912,7 @@ func (e *env) runScenario(sc *scenario) {
 		}
 		us.Proc, ut.Proc = unproc(procS), unproc(lp.observe(lpProg))
 		rec := rt.M{"kind": "obs", "src": sc.Src, "id": sc.ID, "step": i, "w": sc.W, "run": nrun, "shift": sc.Shift,
-			"a": act, "s": us, "t": ut,
+			"a": act, "s": us, "t": ut, "posted": append([]bodyRec{}, bodies[nbodies:]...),
 			"same": rt.M{"data": same, "mode": sameMode(snapS, snapT)}, "what": what,
 			"read": unshiftRead(vm.LibRead(dir), sc.Shift), "extra_s": extraS, "extra_t": extraT, "err": errText,
 			"mode_bytes": modeText(dir)}
